@@ -56,6 +56,7 @@ class Runner:
     def __init__(self, scn, seed, replay=None, rundir=None, max_steps=20000):
         self.scn = scn
         self.seed = seed
+        wmod.install()
         self.k = Kernel(seed, replay=replay, max_steps=max_steps)
         rundir = rundir or os.path.join(
             "/dev/shm" if os.path.isdir("/dev/shm") else os.environ.get("TMPDIR", "/tmp"),
@@ -304,7 +305,7 @@ class Runner:
         task, init = self.build(st, x)
         xp = st.xp
         before = len(xp.scheduler.jobs)
-        k.log("submit-call", x=x, dup=dup)
+        k.log("submit-call", x=x, dup=dup, **self.pid_status(x))
         try:
             out = task.submit(init_tasks=init) if init else task.submit()
         except BaseException as e:
@@ -332,6 +333,29 @@ class Runner:
                 st.jobs[x] = job
                 st.obj[x], st.out[x] = task, out
         k.log("submit-return", **info)
+
+    def pid_status(self, x):
+        """State of the job's pid file / process as an outside observer sees it."""
+        w = self.w
+        d = w.jobdir.get(x)
+        alive = [p.pid for p in w.procs.values() if p.kind == "job" and p.x == x and p.alive]
+        st = "unknown"
+        pid = None
+        if d is not None:
+            name = os.path.basename(os.path.dirname(d)).rsplit(".", 1)[-1]
+            pp = os.path.join(d, name + ".pid")
+            if not os.path.isfile(pp):
+                st = "none"
+            else:
+                try:
+                    with open(pp) as f:
+                        txt = f.read()
+                    pid = json.loads(txt)["pid"] if txt else None
+                    st = "ok" if txt else "empty"
+                except Exception:
+                    st = "garbled"
+        return {"pidfile": st, "pidfile_alive": bool(pid in alive) if pid is not None else False, "alive": alive,
+                "done": w.marker_exists(x, "done")}
 
     def do_op(self, proc, st, op):
         k, w = self.k, self.w
